@@ -9,6 +9,8 @@ for d in seeded/*/; do
   name=$(basename $d)
   id=${name%%-*}
   if grep -q "NOT DETECTED" $d/meta.json; then echo "$name documented-not-detected (skipped)"; skip=$((skip+1)); continue; fi
+  by=$(python3 -c "import json,sys; print(json.load(open('$d/meta.json')).get('detected_by') or '$id')")   # the property whose check reports it
+  id=$by
   out=$(tools/trymut.sh $d/patch.diff - - $id $tier 2>&1)
   if echo "$out" | grep -q "PATCH DOES NOT APPLY"; then echo "$name PATCH DOES NOT APPLY"; miss=$((miss+1)); continue; fi
   rc=$(echo "$out" | grep -o "check $id rc=[0-9]*" | head -1 | sed 's/.*rc=//')
